@@ -12,8 +12,10 @@ ASSUME = c02.ASSUME + [
 
 
 def run(tier):
-    return c02.run_e2(PID, tier, ASSUME, grammars=("act_fallible", "act_inline"),
-                      relevant=lambda c: any(x in c for x in c02.ERRORS))
+    rc = c02.run_e2(PID, tier, ASSUME, grammars=("act_fallible", "act_inline"),
+                    relevant=lambda c: any(x in c for x in c02.ERRORS))
+    from vlib import e3
+    return e3.add_stage(PID, tier, rc, ["errors", "recovery_errors"], {"C17"})
 
 
 def replay(path):
